@@ -4,7 +4,7 @@ The TLA+ specification never sees text.  A formula record is
 
     {"ps": [[name, hasDefault, default], ...],
      "ops": [["const", v] | ["call", [names...], [arg...], spelling]
-             | ["read", [names...]] | ["raise", e] | ["none"]],
+             | ["read", [names...]] | ["raise", e] | ["raiseif", k, e] | ["none"]],
      "catch": bool, "onerr": int, "style": "def"|"lambda"|"defx"|"defrr"}
 
 style "defrr" (with "probe": a call op): the body runs inside `try:`, and the handler
@@ -118,6 +118,9 @@ def render(frec, name, sigs=None):
         elif op[0] == "raise":
             body.append(pre + ('raise ValueError("E%d")' if op[1] < 8 else
                                'raise GeneratorExit("E%d")') % op[1])
+        elif op[0] == "raiseif":
+            body.append(pre + ('if %s == %d: raise ValueError("E%d")' if op[2] < 8 else
+                               'if %s == %d: raise GeneratorExit("E%d")') % (ps[0][0], op[1], op[2]))
         elif op[0] == "none":
             body.append(pre + "return None")
         else:
